@@ -643,7 +643,9 @@ def run(tier, seed):
             cases += dup_cases(fkey, seed, caps) + [dict(c, cpu="async") for c in dup_cases(fkey, seed, ["ro"])]
             cases += plant_cases(fkey, caps) + [dict(c, cpu="async") for c in plant_cases(fkey, ["ro"])]
     # several answers per reactor turn (grid.Sched.batch): the substitution, field and duplicate cases again
-    cases += [dict(c, batch=True) for c in cases if c.get("cls") in ("subst", "field", "dup", "plant") or "dup" in c][:: (2 if tier == "quick" else 1)]
+    cases += [dict(c, batch=True) for c in cases if c.get("cls") in ("subst", "field", "dup") or ("dup" in c and c.get("cls") != "plant")][:: (2 if tier == "quick" else 1)]
+    # (every cooperating-servers case again: found there first - a rejected copy's block hashes held against the other copy)
+    cases += [dict(c, batch=True) for c in cases if c.get("cls") == "plant" and not c.get("batch")]
     # a flip in "needed" mode with other == victim is meaningless
     cases = [c for c in cases if sum(1 for s in c["slots"].values() if s[0] != "missing") >= 1]
     for fkey in sorted(set(c["fkey"] for c in cases)):
